@@ -646,3 +646,54 @@ mod tests {
         );
     }
 }
+
+/// Applies one operation of the variance algebra to two values given in a canonical text form and
+/// prints the result in the same form (verification hook): `inv:N`, `unb`, `lower:N`, `upper:N`,
+/// `both:LOWER:EXTENT`. The operations are `conj` and `disj` over depth variances, `prod` of a
+/// depth variance and a repetition range, and `upper` (whether the left operand has an upper
+/// bound).
+#[cfg(olson_sean_k_wax_verif)]
+pub fn verif_variance_op(op: &str, lhs: &str, rhs: &str) -> Option<String> {
+    fn bounds(text: &str) -> Option<Variance<usize, VariantRange>> {
+        let fields: Vec<_> = text.split(':').collect();
+        let number = |index: usize| fields.get(index)?.parse::<usize>().ok();
+        let nonzero = |index: usize| NonZeroUsize::new(number(index)?);
+        Some(match fields.first().copied()? {
+            "inv" => Variance::Invariant(number(1)?),
+            "unb" => Variance::Variant(Unbounded),
+            "lower" => Variance::Variant(Bounded(BoundedVariantRange::Lower(nonzero(1)?))),
+            "upper" => Variance::Variant(Bounded(BoundedVariantRange::Upper(nonzero(1)?))),
+            "both" => Variance::Variant(Bounded(BoundedVariantRange::Both {
+                lower: nonzero(1)?,
+                extent: nonzero(2)?,
+            })),
+            _ => return None,
+        })
+    }
+
+    fn show(variance: TokenVariance<Depth>) -> String {
+        match variance {
+            Variance::Invariant(depth) => format!("inv:{}", usize::from(depth)),
+            Variance::Variant(Unbounded) => "unb".into(),
+            Variance::Variant(Bounded(BoundedVariantRange::Lower(lower))) => {
+                format!("lower:{}", lower)
+            },
+            Variance::Variant(Bounded(BoundedVariantRange::Upper(upper))) => {
+                format!("upper:{}", upper)
+            },
+            Variance::Variant(Bounded(BoundedVariantRange::Both { lower, extent })) => {
+                format!("both:{}:{}", lower, extent)
+            },
+        }
+    }
+
+    let depth = |text: &str| bounds(text).map(|range| range.map_invariant(Depth::new));
+    let lhs = depth(lhs)?;
+    Some(match op {
+        "conj" => show(ops::conjunction(lhs, depth(rhs)?)),
+        "disj" => show(ops::disjunction(lhs, depth(rhs)?)),
+        "prod" => show(ops::product(lhs, bounds(rhs)?)),
+        "upper" => lhs.has_upper_bound().to_string(),
+        _ => return None,
+    })
+}
